@@ -4,6 +4,8 @@
 \* (a stale setting only produces drift entries, never a verdict)
 CONSTANTS
   MaxDesc = 3
+  EmMaxDesc = 2
+  EmLong = FALSE
   Parts = {"idp", "sp"}
   Selection = "fixed"
 INIT Init
